@@ -1,7 +1,9 @@
 // C28 harness: the real FIX8::FileLogger (file target, "sequence" flag) fed by 1..8 real producer threads.
-//   case  : "<mode a|b|c> <level mask> <delay us> <prog>,<prog>,..."
+//   case  : "<mode a|b|c> <level mask> <delay us> <prog>,<prog>,... [<direction flag 0|1> <vals>,<vals>,...]"
 //           prog = one character per submit call of that producer: '0'..'4' = a line at level Debug..Fatal with the
 //           text "<producer>.<call>", 'a'..'e' = a line with an EMPTY text at level 0..4; "-" = no calls
+//           vals = per call the "val" argument of send(): '0' -> 0, '1' -> 1, '2' -> 4096 (default: all 0);
+//           direction flag 1: the logger has Logger::direction besides Logger::sequence (default 0)
 //           mode a: stop() is called by the producer thread that finishes last, right after its last call;
 //           b: by the main thread <delay us> after it has joined the producers; c: by the main thread after the file has
 //           been seen to contain one line per call at an enabled level (or has not grown for a while)
@@ -44,9 +46,16 @@ static std::string run_case(const std::string& line, unsigned caseno)
 	std::string mode, progs; unsigned mask, delay;
 	if (!(is >> mode >> mask >> delay >> progs) || mode.size() != 1)
 		return "BAD-CASE";
-	std::vector<std::string> prog;
+	std::vector<std::string> prog, vals;
 	for (auto& p : split(progs, ','))
 		prog.push_back(p == "-" ? std::string() : p);
+	unsigned dirflag(0); std::string valstr;
+	if (is >> dirflag >> valstr)
+		for (auto& v : split(valstr, ','))
+			vals.push_back(v == "-" ? std::string() : v);
+	vals.resize(prog.size());
+	for (size_t i(0); i < prog.size(); ++i)
+		vals[i].resize(prog[i].size(), '0');
 	const size_t np(prog.size());
 	if (np < 1 || np > 64)
 		return "BAD-CASE";
@@ -70,8 +79,11 @@ static std::string run_case(const std::string& line, unsigned caseno)
 	pn << g_dir << "/case" << caseno << ".log";
 	const std::string path(pn.str());
 
-	FileLogger *lg(new FileLogger(path, Logger::LogFlags() << Logger::sequence, Logger::Levels(mask), " ",
-		Logger::LogPositions(), 0));
+	Logger::LogFlags flags;
+	flags << Logger::sequence;
+	if (dirflag)
+		flags << Logger::direction;
+	FileLogger *lg(new FileLogger(path, flags, Logger::Levels(mask), " ", Logger::LogPositions(), 0));
 
 	std::vector<std::string> rets(np);
 	std::atomic<bool> go(false);
@@ -92,7 +104,8 @@ static std::string run_case(const std::string& line, unsigned caseno)
 				std::ostringstream txt;
 				if (!empty)
 					txt << i << '.' << k;
-				const bool r(lg->send(txt.str(), static_cast<Logger::Level>(lev)));
+				const unsigned val(vals[i][k] == '0' ? 0 : vals[i][k] == '1' ? 1 : 4096);
+				const bool r(lg->send(txt.str(), static_cast<Logger::Level>(lev), nullptr, val));
 				rets[i].push_back(r ? '1' : '0');
 				if (np > 1 && (k + i) % 3 == 0)		// let the producers interleave
 					sched_yield();
